@@ -1,7 +1,141 @@
-(* Props/C18.v — property C18 (SIG(0)).  Only statements. *)
-From Dns Require Import Model.Sig0 Proofs.WireProofs Proofs.Sig0Proofs.
+(* Props/C18.v — property C18 (SIG(0): any message can be signed; only
+   untampered, timely messages verify; malformed input of header size or more
+   yields an error, not a panic).  Only statements; proofs in
+   Proofs/Sig0Proofs.v.  Hash-then-sign [ss] and hash-then-verify [sc] are
+   universally quantified (Section variables of Model/Sig0.v).
+
+   Two clauses of the property are FALSE of the code as pinned and appear here
+   as explicit side conditions with refuting witnesses:
+   [ulen < clen + |SIG|] in sign_succeeds (witness sign_errbuf_refuted) and
+   [h_ar h < 256] in sign_verify (witness verify_arcount_refuted). *)
+From Dns Require Import Model.Sig0 Model.Tsig Proofs.WireProofs Proofs.TsigProofs Proofs.Sig0Proofs.
 Open Scope N_scope.
 
+(* --- the signed octets are the packed message followed by one SIG record
+   (owner ".", class ANY, TTL 0, RDLENGTH covering RDATA and signature) with
+   ARCOUNT incremented; the signature is computed over SIG RDATA | message *)
+Theorem sign_layout :
+  forall ss clen ulen h body r out,
+    sig0_sign ss clen ulen (hdr_wire h ++ body) r = Ok out ->
+    exists sg,
+      key_fields_bad r = false /\ valid_wire (s_signer r) = true /\ has_hash (s_alg r) = true /\
+      ulen + 1 <= clen + lenN (sig_rr_wire r) /\
+      ss (s_alg r) (sig_rdata r ++ hdr_wire h ++ body) = Ok sg /\
+      lenN out <= 65535 /\
+      out = hdr_wire (set_ar h ((h_ar h mod 65536 + 1) mod 65536)) ++ body ++
+            sig_rr_hdr ((lenN (sig_rdata r) mod 65536 + lenN sg) mod 65536) ++ sig_rdata r ++ sg.
+Proof. exact sign_spec. Qed.
+
+(* --- "any message can be signed": true whenever the buffer-size test passes,
+   i.e. the uncompressed length is below m.Len() plus the SIG's length
+   (always so without compression, where clen = ulen) ... *)
+Theorem sign_succeeds :
+  forall ss clen ulen mbuf r sg,
+    key_fields_bad r = false -> valid_wire (s_signer r) = true -> has_hash (s_alg r) = true ->
+    12 <= lenN mbuf -> lenN mbuf <= clen ->
+    ulen < clen + lenN (sig_rr_wire r) ->
+    ss (s_alg r) (sig_rdata r ++ mbuf) = Ok sg ->
+    lenN mbuf + lenN (sig_rr_wire r) + lenN sg <= 65535 ->
+    exists out, sig0_sign ss clen ulen mbuf r = Ok out.
+Proof. exact Sig0Proofs.sign_succeeds. Qed.
+
+(* --- ... and false otherwise: whenever compression saves at least the SIG's
+   own length, Sign returns ErrBuf (genuine defect C18/Sign/ErrBuf-compress) *)
+Theorem sign_errbuf_refuted :
+  forall ss clen ulen mbuf r,
+    key_fields_bad r = false -> clen + lenN (sig_rr_wire r) <= ulen ->
+    sig0_sign ss clen ulen mbuf r = Err "buf".
+Proof. intros ss clen ulen mbuf r. exact (sign_errbuf clen ulen mbuf r ss). Qed.
+
+(* --- a signed message verifies against a key with the signer's name (case
+   ignored) at any time inside the window, for every well-framed message with
+   FEWER THAN 256 additional records, given that signatures by the private key
+   check under the public key *)
+Theorem sign_verify :
+  forall ss sc chk h body r kname clen ulen out now,
+    hdr_ok h -> h_an h + h_ns h + h_ar h + 1 < 65536 -> h_ar h < 256 -> wf_body chk h body ->
+    s_expire r < 4294967296 -> s_incept r < 4294967296 -> s_keytag r < 65536 ->
+    (forall d s, ss (s_alg r) d = Ok s -> sc (s_alg r) d s = Ok tt) ->
+    sig0_sign ss clen ulen (hdr_wire h ++ body) r = Ok out ->
+    s_incept r <= now <= s_expire r -> name_equal (s_signer r) kname = true ->
+    sig0_verify sc r kname out now = Ok tt.
+Proof. exact sign_verify_ok. Qed.
+
+(* --- with 256 additional records it does not: Verify hashes 0 for the high
+   octet of ARCOUNT-1 (genuine defect C18/Verify/arcount-high-byte).  The
+   witness uses the transparent scheme "signature = data". *)
+Theorem verify_arcount_refuted :
+  match sig0_sign ex_ss 5000 5000 (ex_msg 255) ex_sig, sig0_sign ex_ss 5000 5000 (ex_msg 256) ex_sig with
+  | Ok o255, Ok o256 =>
+    sig0_verify ex_sc ex_sig [[107; 101; 121]] o255 1500 = Ok tt /\
+    sig0_verify ex_sc ex_sig [[107; 101; 121]] o256 1500 = Err "sig"
+  | _, _ => False
+  end.
+Proof. exact verify_arcount_witness. Qed.
+
+(* --- Verify = nil only if: the SIG has key tag, signer and a hashable
+   algorithm; now is inside [inception, expiration] as plain unsigned numbers;
+   the signer name in the message equals the key's owner name up to ASCII case;
+   and the signature check accepted, for the octets after the signer name,
+   exactly: SIG RDATA up to the signer name | header octets 0..9 | 0 | low octet
+   of ARCOUNT-1 | octets 12..start of the last record *)
+Theorem verify_sound :
+  forall sc r kname buf now,
+    sig0_verify sc r kname buf now = Ok tt ->
+    exists adc bodyend sigstart sigend rd h10 body sg expire incept signer,
+      key_fields_bad r = false /\ has_hash (s_alg r) = true /\
+      be_at 2 buf 10 = Ok adc /\ 12 <= bodyend /\
+      slice buf sigstart sigend = Ok rd /\ slice buf 0 10 = Ok h10 /\
+      slice buf 12 bodyend = Ok body /\ slice buf sigend (lenN buf) = Ok sg /\
+      be_at 4 buf (sigstart + 8) = Ok expire /\ be_at 4 buf (sigstart + 8 + 4) = Ok incept /\
+      incept <= now <= expire /\
+      unpack_name buf (sigstart + 8 + 8 + 2) = Ok (signer, sigend) /\ name_equal signer kname = true /\
+      sc (s_alg r) (rd ++ h10 ++ [0; (adc + 65535) mod 65536 mod 256] ++ body) sg = Ok tt.
+Proof. exact verify_sound0. Qed.
+
+(* --- on ANY octet string of at least header size, with any SIG and key name,
+   at any time: an error or a verdict, never a panic (every index and slice of
+   SIG.Verify is guarded), and the model's recursion budget is never the cause *)
+Theorem verify_no_panic :
+  forall sc r kname buf now,
+    12 <= lenN buf ->
+    (forall a d s, sc a d s <> Panic /\ sc a d s <> OutOfFuel) ->
+    sig0_verify sc r kname buf now <> Panic /\ sig0_verify sc r kname buf now <> OutOfFuel.
+Proof. intros sc r kname buf now. exact (verify_safe (fun _ _ => Ok []) sc r kname buf now). Qed.
+
+(* --- any alteration fails (idealised signature scheme): what Sign hashes
+   determines every SIG field and every octet of the message ... *)
+Theorem signed_data_injective :
+  forall r1 r2 m1 m2,
+    s_alg r1 < 256 -> s_alg r2 < 256 -> s_expire r1 < 4294967296 -> s_expire r2 < 4294967296 ->
+    s_incept r1 < 4294967296 -> s_incept r2 < 4294967296 -> s_keytag r1 < 65536 -> s_keytag r2 < 65536 ->
+    valid_wire (s_signer r1) = true -> valid_wire (s_signer r2) = true ->
+    sig_rdata r1 ++ m1 = sig_rdata r2 ++ m2 ->
+    s_alg r1 = s_alg r2 /\ s_expire r1 = s_expire r2 /\ s_incept r1 = s_incept r2 /\
+    s_keytag r1 = s_keytag r2 /\ s_signer r1 = s_signer r2 /\ m1 = m2.
+Proof. exact sign_data_injective. Qed.
+
+(* --- ... and under [sig_binding] (a signature fits one digest input only) two
+   accepted buffers carrying the same signature octets were hashed to the same
+   input *)
+Theorem same_signature_same_data :
+  forall sc r1 r2 k1 k2 buf1 buf2 now1 now2,
+    (forall a1 a2 d1 d2 s, sc a1 d1 s = Ok tt -> sc a2 d2 s = Ok tt -> d1 = d2) ->
+    sig0_verify sc r1 k1 buf1 now1 = Ok tt -> sig0_verify sc r2 k2 buf2 now2 = Ok tt ->
+    forall e1 e2 sg, slice buf1 e1 (lenN buf1) = Ok sg -> slice buf2 e2 (lenN buf2) = Ok sg ->
+    (forall adc bodyend sigstart rd h10 body,
+        be_at 2 buf1 10 = Ok adc -> slice buf1 sigstart e1 = Ok rd -> slice buf1 0 10 = Ok h10 ->
+        slice buf1 12 bodyend = Ok body ->
+        sc (s_alg r1) (rd ++ h10 ++ [0; (adc + 65535) mod 65536 mod 256] ++ body) sg = Ok tt ->
+        forall adc' bodyend' sigstart' rd' h10' body',
+          be_at 2 buf2 10 = Ok adc' -> slice buf2 sigstart' e2 = Ok rd' -> slice buf2 0 10 = Ok h10' ->
+          slice buf2 12 bodyend' = Ok body' ->
+          sc (s_alg r2) (rd' ++ h10' ++ [0; (adc' + 65535) mod 65536 mod 256] ++ body') sg = Ok tt ->
+          rd ++ h10 ++ [0; (adc + 65535) mod 65536 mod 256] ++ body =
+          rd' ++ h10' ++ [0; (adc' + 65535) mod 65536 mod 256] ++ body').
+Proof. exact same_sig_same_data. Qed.
+
+(* --- errors named by the property: missing key fields *)
 Theorem verify_requires_key_fields :
   forall sc r kname buf now, key_fields_bad r = true -> sig0_verify sc r kname buf now = Err "key".
-Proof. exact key_fields_bad_err. Qed.
+Proof. intros sc r kname buf now H. unfold sig0_verify. now rewrite H. Qed.
